@@ -351,9 +351,9 @@ fn sess_wrap(g: &mut Gen, total: usize) {
 fn gen_all(tier: &str, seed: u64, out: &mut dyn std::io::Write) {
     let mut g = Gen::new(out, seed.wrapping_mul(0x9e3779b97f4a7c15) ^ if IS7 { 0x7777 } else { 0x6666 });
     let (n_random, n_ops, n_foreign, n_wrap) = match tier {
-        "thorough" => (3000usize, 200usize, 1500usize, 12usize),
+        "thorough" => (1500usize, 150usize, 800usize, 6usize),
         "search" => (400, 80, 200, 1),
-        _ => (220, 60, 160, 1),
+        _ => (100, 50, 70, 1),
     };
     if tier != "search" || seed % 4 == 0 {
         sess_api(&mut g);
